@@ -234,7 +234,7 @@ META = {
     "explanation": "As C05 for presigned URLs (V1-V4 on the presigned verifier), plus: the expiry and clock-skew comparisons are normalised "
                    "(which outcome rejects) and must edge-dominate acceptance; each X-Amz-* parameter is read with get_unique under its literal; "
                    "only X-Amz-Signature is excluded from the canonical query; algorithm literal checked before the key lookup; layout of the "
-                   "presigned canonical request. The numeric boundary for all times is not decided.",
+                   "presigned canonical request. The numeric boundary for all times is not decided. Round 4: the elapsed time enters the expiry comparison exactly (no defaulting / saturating conversion); the header view is sorted by name only, stably (V6).",
     "not_decided": ["completeness as a whole", "the numeric expiry boundary for all times (values)", "the 604800 s cap (the property does not demand one)"],
     "assumptions": ["rustc nightly MIR construction", "time crate: Duration::abs/is_negative/seconds, OffsetDateTime::now_utc have their documented meaning"],
 }
